@@ -72,6 +72,9 @@ impl AutoDespawner
     /// Removes one pending despawned entity.
     pub(crate) fn try_recv(&self) -> Option<Entity>
     {
+         #[cfg(ukoehb_bevy_cobweb_verif)]
+         return self.receiver.try_recv().ok().inspect(|entity| crate::verif::trace(crate::verif::RunnerEv::GcTake(*entity)));
+         #[cfg(not(ukoehb_bevy_cobweb_verif))]
          self.receiver.try_recv().ok()
     }
 }
